@@ -36,6 +36,28 @@ def _term(fn: FuncInfo, e: ast.AST, M: Model) -> T.Term:
 def check(ctx: Ctx) -> None:
     M = ctx.model
     ctx.assume('equal antennas per user (the property quantifies over that); np.dot/@ spellings; Frobenius norms via np.linalg.norm(., "fro")')
+    from ..commit import check_family
+    check_family(ctx, 'C09.g', ['BlockDiagonalizer'], floor=1)
+    # ------------------------------------------------------------------ C09.h
+    ctx.rule('C09.h', 'receive filters are formed with the PSEUDO-inverse of the effective channel: water-filling may give a stream zero power '
+                      '(a zero column), for which inv/solve raise while pinv still inverts every powered stream', floor=2)
+    for fnq in [q for q in ('BlockDiagonalizer.calc_receive_filter', 'BDWithExtIntBase.calc_receive_filter_user_k',
+                            'EnhancedBD.calc_receive_filter_user_k', 'WhiteningBD.calc_receive_filter_user_k')]:
+        cname, mname = fnq.split('.')
+        if cname not in M.classes or mname not in M.cls(cname).methods:
+            continue
+        fn = M.cls(cname).methods[mname]
+        ctx.instance('C09.h', fnq)
+        invs = [c for c in walk_no_nested(fn.node) if isinstance(c, ast.Call) and norm(c.func).split('.')[-1] in ('inv', 'pinv', 'solve', 'lstsq')
+                and 'linalg' in norm(c.func)]
+        if not invs:
+            ctx.error('C09.h: %s no longer inverts the effective channel with a numpy.linalg routine (cannot tell)' % fnq)
+        bad = [norm(c.func) for c in invs if norm(c.func).split('.')[-1] in ('inv', 'solve')]
+        ctx.obligation('C09.h', fnq, not bad, {'inversions': [norm(c.func) for c in invs]})
+        if bad:
+            ctx.violation('C09.h', fnq, 'the receive filter is formed with %s: with a zero-power stream the effective channel is singular and the '
+                          'filter cannot be computed (the pseudo-inverse inverts the streams that were given power)' % bad, fn.path, invs[0].lineno,
+                          operand='pinv')
     # ------------------------------------------------------------------ C09.a
     ctx.rule('C09.a', 'null space of ALL other users, precoder = null-space basis x inner factor, same user index', floor=2)
     tf = M.func(BD, 'BlockDiagonalizer._get_tilde_channel')
@@ -431,6 +453,8 @@ def _check_dispatch(ctx: Ctx) -> None:
 
 
 MUTANTS = [
+    Mutant('revert-fix-metric-name-before-validation', BD, 'EnhancedBD.set_ext_int_handling_metric',
+           [('regex', r"(    elif metric == 'naive':\n)", r"\1        self._metric_func_name = 'naive'\n")], r'C09\.g:EnhancedBD\.set_ext_int_handling_metric'),
     Mutant('tilde-channel-includes-own-user', BD, 'BlockDiagonalizer._get_tilde_channel',
            [('replace', 'if i != user', 'if i >= 0')], r'C09\.a:BlockDiagonalizer\._get_tilde_channel'),
     Mutant('precoder-without-null-space-basis', BD, 'BlockDiagonalizer._calc_BD_matrix_no_power_scaling',
